@@ -31,6 +31,8 @@ pub enum Step {
     /// Worker `w` sees the first `k` queued commands, runs one slice of at most `q` units.
     Worker { w: usize, k: usize, q: usize },
     Tick { d: u64 },
+    /// marker in a stored schedule: the host submitted the next line of the session here
+    Line,
 }
 
 #[derive(Debug, Clone)]
@@ -89,6 +91,9 @@ pub struct Sim {
     pub raw_outcome: Option<(Value, Vec<Vec<u8>>)>,
     pub schedule: Vec<Step>,
     pub steps_done: usize,
+    /// session lines: the run loops may stop as soon as the host has the line's result (the next
+    /// line is then submitted while other processes are still running)
+    pub stop_on_outcome: bool,
 }
 
 fn res_json(program: &Program, r: &Result<(Value, Vec<Vec<u8>>), quiver_core::error::Error>) -> J {
@@ -300,6 +305,7 @@ impl Sim {
             raw_outcome: None,
             schedule: Vec::new(),
             steps_done: 0,
+            stop_on_outcome: false,
         }
     }
 
@@ -618,6 +624,7 @@ impl Sim {
             Step::Env { w, n } => self.env_step(*w, *n),
             Step::Worker { w, k, q } => self.worker_step(*w, *k, *q),
             Step::Tick { d } => self.tick(*d),
+            Step::Line => {}
         }
     }
 
@@ -701,6 +708,9 @@ impl Sim {
         let nw = self.nworkers();
         let mut steps = 0;
         while steps < max_steps {
+            if self.stop_on_outcome && self.outcome.is_some() {
+                break;
+            }
             if self.outcome.is_some() && self.idle() && self.next_timeout().is_none() {
                 break;
             }
@@ -742,6 +752,9 @@ impl Sim {
         let mut steps = 0;
         while steps < max_steps {
             steps += 1;
+            if self.stop_on_outcome && self.outcome.is_some() && rng.chance(1, 3) {
+                break;
+            }
             if self.idle() {
                 match self.next_timeout() {
                     Some(t) if t > self.now => {
@@ -827,6 +840,9 @@ impl Sim {
         let mut steps = 0;
         while steps < max_steps {
             steps += 1;
+            if self.stop_on_outcome && self.outcome.is_some() && rng.chance(1, 3) {
+                break;
+            }
             if self.idle() {
                 match self.next_timeout() {
                     Some(t) if t > self.now => {
@@ -890,6 +906,7 @@ pub fn step_json(s: &Step) -> J {
         Step::Env { w, n } => json!({"s": "env", "w": enc(*w), "n": enc(*n)}),
         Step::Worker { w, k, q } => json!({"s": "worker", "w": w, "k": enc(*k), "q": q}),
         Step::Tick { d } => json!({"s": "tick", "d": d}),
+        Step::Line => json!({"s": "line"}),
     }
 }
 
@@ -908,6 +925,7 @@ pub fn step_from_json(j: &J) -> Option<Step> {
             k: dec(&j["k"]),
             q: j["q"].as_u64().unwrap_or(1000) as usize,
         }),
+        "line" => Some(Step::Line),
         "tick" => Some(Step::Tick {
             d: j["d"].as_u64()?,
         }),
